@@ -21,6 +21,10 @@ class Inconclusive(BaseException):
     """Solver said unknown / model gap / budget exceeded: the run cannot decide."""
 
 
+class NoModel(Inconclusive):
+    """feasibility of a nonlinear path could not be decided, so no model is at hand"""
+
+
 class ModelGap(Inconclusive):
     """The numpy/pandas model does not implement what the code asked for."""
 
@@ -80,9 +84,15 @@ class Ctx:
             if r == "unknown":
                 m = guided_sat(goal, self.stats, attempts=100, budget_s=8.0)
                 if m is None:
-                    raise Inconclusive("solver unknown on a nonlinear feasibility query")
+                    # undecided: over-approximate as feasible.  Sound for the verdict: obligations on an infeasible
+                    # path are discharged vacuously (path && !cond is unsat) -- the price is wasted exploration.
+                    self.stats.undecided_feasibility = getattr(self.stats, "undecided_feasibility", 0) + 1
+                    self._last_model = None
+                    self._no_model = True
+                    return True
                 r = "sat"
             self._last_model = m
+            self._no_model = False
             return r == "sat"
         t = time.time()
         r = self.solver.check(*extra)
@@ -102,11 +112,16 @@ class Ctx:
         if self._model is None:
             if not self._check():
                 raise Abort()
+            if getattr(self, "_no_model", False) and self._last_model is None:
+                raise NoModel("no model available (nonlinear feasibility undecided)")
             self._model = self._last_model if self._last_model is not None else self.solver.model()
         return self._model
 
     def _holds_in_model(self, c):
-        m = self.model()
+        try:
+            m = self.model()
+        except NoModel:
+            return None
         v = m.eval(c, model_completion=True)
         if z3.is_true(v):
             return True
@@ -132,7 +147,8 @@ class Ctx:
         self._model = None
         if not self._check():
             raise Abort()
-        self._model = self._last_model if self._last_model is not None else self.solver.model()
+        if not (getattr(self, "_no_model", False) and self._last_model is None):
+            self._model = self._last_model if self._last_model is not None else self.solver.model()
 
     def branch(self, cond):
         """Decide a symbolic boolean; forks when both outcomes are feasible."""
@@ -190,6 +206,42 @@ class Ctx:
             self.add(expr == val)
             self.stats.decisions += 1
             return val
+
+    def concretize_real(self, expr):
+        expr = z3.simplify(expr)
+        if z3.is_rational_value(expr):
+            return float(Fraction(expr.numerator_as_long(), expr.denominator_as_long()))
+        if self.pos < len(self.log):
+            ent = self.log[self.pos]
+            assert isinstance(ent, tuple) and ent[0] == "r", "replay desync (expected real concretisation)"
+            self.pos += 1
+            val = ent[1]
+        else:
+            m = self.model()
+            v = m.eval(expr, model_completion=True)
+            if z3.is_algebraic_value(v):
+                v = v.approx(20)
+            if not z3.is_rational_value(v):
+                raise ModelGap("float() of a symbolic real without a rational model value")
+            val = Fraction(float(Fraction(v.numerator_as_long(), v.denominator_as_long())))
+            used = self.__dict__.setdefault("_used_reals", set())
+            # prefer pairwise distinct representatives (an all-equal assignment hides re-ordering / shifting defects)
+            cand = val
+            for k in range(1, 8):
+                if cand not in used:
+                    break
+                cand = val + Fraction(3 * k + len(used) % 5, 4)
+            if cand != val and cand not in used and self._check(expr == z3.RealVal(cand)):
+                val = cand
+            elif not self._check(expr == z3.RealVal(val)):
+                raise ModelGap("float() of a symbolic real: representative value infeasible")
+            used.add(val)
+            self.log.append(("r", val))
+            self.pos += 1
+        self.add(expr == z3.RealVal(val))
+        self._model = None
+        self.stats.concolic = getattr(self.stats, "concolic", 0) + 1
+        return float(val)
 
     # ---------------------------------------------------------------- fresh symbols
     def _name(self, name):
@@ -1006,7 +1058,9 @@ class SReal(SNum):
     __hash__ = None
 
     def __float__(self):
-        raise ModelGap("float() of a symbolic real")
+        # the code forces a machine float: continue *concolically* with one representative value (recorded; a
+        # run that did this and found no violation is reported as inconclusive, never as a pass)
+        return Ctx.cur.concretize_real(self.e)
 
     def __int__(self):
         # python int() truncates toward zero; the (integral) value is concretised by forking
